@@ -118,7 +118,8 @@ fn model_tree(bits: u32) -> Node {
     for p in ["a.slice", "b.slice", "sub/c.slice", "pkg/d.slice", "pkg/deep/er/e.slice"] {
         insert(&mut root, p, Node::File(Kind::Slice));
     }
-    for p in ["notes.txt", "pkg/readme.md", "pkg/x.slice.bak", "pkg/deep/slice"] {
+    // (the extension is exactly ".slice": other letter cases are other extensions)
+    for p in ["notes.txt", "pkg/readme.md", "pkg/x.slice.bak", "pkg/deep/slice", "pkg/UP.SLICE", "sub/mixed.Slice"] {
         insert(&mut root, p, Node::File(Kind::Other));
     }
     if bits & 1 != 0 {
@@ -156,6 +157,7 @@ fn spellings(bits: u32) -> Vec<String> {
         ".",               // the whole tree
         "missing.slice",   // nonexistent
         "notes.txt",       // existing, not a Slice file
+        "pkg/UP.SLICE",    // existing, the extension in another letter case: not a Slice file
     ];
     if bits & 1 != 0 {
         v.push("pkg/empty");
